@@ -7,14 +7,18 @@ import GoldModel.Drive.ExSpec
 `Kind:value:sl:sc:el:ec`, `ex` = the prefix form of `exspec`):
 
     prog   := decl*
-    decl   := DP t mname params mods body | DF t mname params t t mods body | DC t t t t | DV t t t | DK - t t | DK + t t t t t
+    decl   := DP t mname params mods body | DF t mname params t t mods body | DC t t t t opt | DV opt t t t { t* } abs
+             | DK - t t | DK + t t t t t | DM t t | DU t t commas
     mname  := N t | V t t t
     mods   := { (M t | X t t)* }
     body   := - | + stmts t
     params := - | E t t | L t param (, t param)* . t
     param  := M t t t t | N t t t
     stmts  := [ stmt* ]
-    stmt   := SA ex t ex | SE ex | SR t ex | SC t | SV t t t t | SI t ex stmts tail
+    opt    := - | + t
+    abs    := - | + t t
+    commas := (, t t)* .
+    stmt   := SA ex t ex | SE ex | SR t ex | SC t | SV t t t t abs | SS t t commas | SK t t t t opt | SI t ex stmts tail
             | SW t ex stmts t | SL t stmts t | SF t t t ex t ex step stmts t | SX t ex stmts t | SU t stmts t ex
     tail   := TE t | TL t stmts t | TF t ex stmts tail
     step   := - | + t ex
@@ -58,6 +62,33 @@ def params : P (Option ParamList)
     pure (some (.cons lp f rest rp), ws)
   | _ => none
 
+def optTok : P (Option Tok)
+  | "-" :: ws => some (none, ws)
+  | "+" :: ws => do
+    let (t, ws) ← tok ws
+    pure (some t, ws)
+  | _ => none
+
+def abs : P (Option (Tok × Tok))
+  | "-" :: ws => some (none, ws)
+  | "+" :: ws => do
+    let (a, ws) ← tok ws; let (x, ws) ← tok ws
+    pure (some (a, x), ws)
+  | _ => none
+
+partial def commas : P (List (Tok × Tok))
+  | "." :: ws => some ([], ws)
+  | "," :: ws => do
+    let (c, ws) ← tok ws; let (t, ws) ← tok ws; let (more, ws) ← commas ws
+    pure ((c, t) :: more, ws)
+  | _ => none
+
+partial def tokList : P (List Tok)
+  | "}" :: ws => some ([], ws)
+  | ws => do
+    let (t, ws) ← tok ws; let (more, ws) ← tokList ws
+    pure (t :: more, ws)
+
 def step : P (Option (Tok × Ex))
   | "-" :: ws => some (none, ws)
   | "+" :: ws => do
@@ -80,8 +111,14 @@ partial def stmt : P (Stmt Ex)
     let (k, ws) ← tok ws
     pure (.ctl k, ws)
   | "SV" :: ws => do
-    let (k, ws) ← tok ws; let (n, ws) ← tok ws; let (c, ws) ← tok ws; let (t, ws) ← tok ws
-    pure (.lvar k n c t, ws)
+    let (k, ws) ← tok ws; let (n, ws) ← tok ws; let (c, ws) ← tok ws; let (t, ws) ← tok ws; let (a, ws) ← abs ws
+    pure (.lvar k n c t a, ws)
+  | "SS" :: ws => do
+    let (k, ws) ← tok ws; let (f, ws) ← tok ws; let (r, ws) ← commas ws
+    pure (.usesS k f r, ws)
+  | "SK" :: ws => do
+    let (k, ws) ← tok ws; let (n, ws) ← tok ws; let (q, ws) ← tok ws; let (l, ws) ← tok ws; let (m, ws) ← optTok ws
+    pure (.constS k n q l m, ws)
   | "SI" :: ws => do
     let (k, ws) ← tok ws; let (c, ws) ← ex ws; let (b, ws) ← stmts ws; let (tl, ws) ← tail ws
     pure (.ifS k c b tl, ws)
@@ -162,11 +199,21 @@ def decl : P (Decl Ex)
     let (ms, ws) ← mods ws; let (b, ws) ← body ws
     pure (.func k n ps r t ms b, ws)
   | "DC" :: ws => do
-    let (k, ws) ← tok ws; let (n, ws) ← tok ws; let (q, ws) ← tok ws; let (l, ws) ← tok ws
-    pure (.const k n q l, ws)
+    let (k, ws) ← tok ws; let (n, ws) ← tok ws; let (q, ws) ← tok ws; let (l, ws) ← tok ws; let (m, ws) ← optTok ws
+    pure (.const k n q l m, ws)
   | "DV" :: ws => do
-    let (n, ws) ← tok ws; let (c, ws) ← tok ws; let (t, ws) ← tok ws
-    pure (.field n c t, ws)
+    let (m, ws) ← optTok ws; let (n, ws) ← tok ws; let (c, ws) ← tok ws; let (t, ws) ← tok ws
+    match ws with
+    | "{" :: ws => do
+      let (ms, ws) ← tokList ws; let (a, ws) ← abs ws
+      pure (.field m n c t ms a, ws)
+    | _ => none
+  | "DM" :: ws => do
+    let (k, ws) ← tok ws; let (n, ws) ← tok ws
+    pure (.module k n, ws)
+  | "DU" :: ws => do
+    let (k, ws) ← tok ws; let (f, ws) ← tok ws; let (r, ws) ← commas ws
+    pure (.uses k f r, ws)
   | "DK" :: "-" :: ws => do
     let (k, ws) ← tok ws; let (n, ws) ← tok ws
     pure (.cls k n none, ws)
